@@ -206,7 +206,7 @@ theorem loop_hit (E N : List (String × PropMeta)) (pms : List PropMeta)
       constructor
       · intro hk
         simp only [hk, if_true]
-        rw [lookup_map_upd]; simp [upd]
+        rw [lookup_map_upd]; simp
       · intro hk
         simp only [hk, Bool.false_eq_true, if_false]
         rw [lookup_insert]; simp
@@ -609,24 +609,318 @@ theorem writePropsArrays_spec {props ps' : List (String × PropData κ)} {u : Op
     (h : writePropsArrays props u = .ok (pms, sts, ps')) (hnd : (keys props).Nodup) :
     (keys ps').Nodup ∧ sts = ps'.map (fun q => storedOf q.1 q.2) ∧ pms = ps'.map (fun q => entryOf q.1 q.2) := by
   unfold writePropsArrays at h
-  have key : ∀ props1 : List (String × PropData κ), (keys props1).Nodup → writeLoop props1 = .ok (pms, sts, ps') →
-      (keys ps').Nodup ∧ sts = ps'.map (fun q => storedOf q.1 q.2) ∧ pms = ps'.map (fun q => entryOf q.1 q.2) := by
-    intro props1 hn1 hw
-    obtain ⟨e1, e2, e3⟩ := writeLoop_spec hw
-    refine ⟨?_, e2, e3⟩
-    rw [e1]
-    have : keys (props1.map (fun q => (q.1, upcast q.2))) = keys props1 := by
-      simp [keys, List.map_map, Function.comp_def]
-    rw [this]; exact hn1
+  obtain ⟨props1, hu, hw⟩ := bind_eq_ok h
+  obtain ⟨e1, e2, e3⟩ := writeLoop_spec hw
+  refine ⟨?_, e2, e3⟩
+  rw [e1]
+  have : keys (props1.map (fun q => (q.1, upcast q.2))) = keys props1 := by
+    simp [keys, List.map_map, Function.comp_def]
+  rw [this]
+  unfold unsquishAll at hu
   cases u with
-  | none => exact key props hnd (by simpa using h)
-  | some ul =>
+  | none => simp only [Except.ok.injEq] at hu; subst hu; exact hnd
+  | some ul => exact unsquishAll_nodup ul props props1 hu hnd
+
+theorem writePropsArrays_stored {props ps' : List (String × PropData κ)} {u : Option (List (String × List String))}
+    {pms : List PropMeta} {sts : List (Stored κ)}
+    (h : writePropsArrays props u = .ok (pms, sts, ps')) : sts = ps'.map (fun q => storedOf q.1 q.2) := by
+  unfold writePropsArrays at h
+  obtain ⟨props1, -, hw⟩ := bind_eq_ok h
+  exact (writeLoop_spec hw).2.1
+
+end
+
+section
+variable {κ : Type}
+
+/-! ### `compute_and_add_axis_min_max` -/
+
+/-- an axis without its data-dependent fields -/
+def strip (a : Axis κ) : Axis κ := { a with min := none, max := none }
+
+theorem mapM_mem {α β} {f : α → Res β} {l : List α} {l' : List β} (h : l.mapM f = .ok l') :
+    ∀ b ∈ l', ∃ a ∈ l, f a = .ok b := by
+  induction l generalizing l' with
+  | nil => simp only [List.mapM_nil, pure_eq, Except.ok.injEq] at h; subst h; simp
+  | cons x t ih =>
+    simp only [List.mapM_cons] at h
+    obtain ⟨y, hy, h2⟩ := bind_eq_ok h
+    obtain ⟨ys, hys, h3⟩ := bind_eq_ok h2
+    simp only [pure_eq, Except.ok.injEq] at h3
+    subst h3
+    intro b hb
+    rcases List.mem_cons.1 hb with rfl | hb
+    · exact ⟨x, by simp, hy⟩
+    · obtain ⟨a, ha, hfa⟩ := ih hys b hb
+      exact ⟨a, List.mem_cons_of_mem _ ha, hfa⟩
+
+theorem mapM_map_congr {α β γ} {f : α → Res β} (g : β → γ) (g' : α → γ) {l : List α} {l' : List β}
+    (h : l.mapM f = .ok l') (hg : ∀ a b, f a = .ok b → g b = g' a) : l'.map g = l.map g' := by
+  induction l generalizing l' with
+  | nil => simp only [List.mapM_nil, pure_eq, Except.ok.injEq] at h; subst h; simp
+  | cons x t ih =>
+    simp only [List.mapM_cons] at h
+    obtain ⟨y, hy, h2⟩ := bind_eq_ok h
+    obtain ⟨ys, hys, h3⟩ := bind_eq_ok h2
+    simp only [pure_eq, Except.ok.injEq] at h3
+    subst h3
+    simp [hg x y hy, ih hys]
+
+/-- what `compute_and_add_axis_min_max` does to one axis -/
+theorem axisMinMax_spec [Min κ] [Max κ] {nodeProps : List (String × PropData κ)} {a a' : Axis κ}
+    (h : axisMinMax nodeProps a = .ok a') :
+    strip a' = strip a ∧ ∃ p, lookup a.name nodeProps = some p ∧
+      (p.values.len = 0 → a' = a) ∧
+      (p.values.len ≠ 0 → ∃ dt tr rows vals lo hi, p.values = .dense dt tr rows ∧
+        keptValues rows p.missing = .ok vals ∧ vals.min? = some lo ∧ vals.max? = some hi ∧
+        a'.min = some lo ∧ a'.max = some hi) := by
+  unfold axisMinMax at h
+  cases hl : lookup a.name nodeProps with
+  | none => simp [hl] at h
+  | some p =>
+    simp only [hl] at h
+    by_cases h0 : p.values.len = 0
+    · simp only [h0, if_true, Except.ok.injEq] at h
+      subst h
+      exact ⟨rfl, p, rfl, fun _ => rfl, fun hne => absurd h0 hne⟩
+    · simp only [h0, if_false] at h
+      cases hv : p.values with
+      | object es => simp [hv] at h
+      | dense dt tr rows =>
+        simp only [hv] at h
+        obtain ⟨vals, hk, h2⟩ := bind_eq_ok h
+        cases hlo : vals.min? with
+        | none => simp [hlo] at h2
+        | some lo =>
+          cases hhi : vals.max? with
+          | none => simp [hlo, hhi] at h2
+          | some hi =>
+            simp only [hlo, hhi, pure_eq, Except.ok.injEq] at h2
+            subst h2
+            exact ⟨rfl, p, rfl, fun h00 => absurd h00 h0,
+              fun _ => ⟨dt, tr, rows, vals, lo, hi, hv, hk, hlo, hhi, rfl, rfl⟩⟩
+
+theorem assignAxes_spec {md md' : Meta κ} {axes : Option (List (Axis κ))} (h : assignAxes md axes = .ok md') :
+    md' = { md with axes := axes } := by
+  unfold assignAxes at h
+  split at h
+  · cases h; rfl
+  · cases h
+
+/-- `compute_and_add_axis_min_max` touches nothing but the axes, and there only min/max -/
+theorem computeMinMax_spec [Min κ] [Max κ] {md md' : Meta κ} {nodeProps : List (String × PropData κ)}
+    (h : computeAndAddAxisMinMax md nodeProps = .ok md') :
+    (md.axes = none ∧ md' = md) ∨
+    ∃ axes axes', md.axes = some axes ∧ axes.mapM (axisMinMax nodeProps) = .ok axes' ∧
+      md' = { md with axes := some axes' } := by
+  unfold computeAndAddAxisMinMax at h
+  cases ha : md.axes with
+  | none => simp only [ha, Except.ok.injEq] at h; exact Or.inl ⟨rfl, h.symm⟩
+  | some axes =>
+    simp only [ha] at h
+    obtain ⟨axes', hm, h2⟩ := bind_eq_ok h
+    exact Or.inr ⟨axes, axes', rfl, hm, assignAxes_spec h2⟩
+
+/-! ### `write_arrays`, decomposed -/
+
+theorem writeOpt_spec {props : Option (List (String × PropData κ))} {u : Option (List (String × List String))}
+    {r : Option (PropsResult κ)} (h : writeOpt props u = .ok r) :
+    (props = none ∧ r = none) ∨ ∃ ps b, props = some ps ∧ writePropsArrays ps u = .ok b ∧ r = some b := by
+  unfold writeOpt at h
+  cases props with
+  | none => simp only [Except.ok.injEq] at h; exact Or.inl ⟨rfl, h.symm⟩
+  | some ps =>
     simp only at h
-    cases hu : ul.foldlM (fun acc nr => unsquishOne acc nr.1 nr.2) props with
-    | error e => simp [hu] at h
-    | ok props1 =>
-      simp only [hu, ok_bind] at h
-      exact key props1 (unsquishAll_nodup ul props props1 hu hnd) h
+    cases hf : writePropsArrays ps u with
+    | error e => simp [hf, Except.map] at h
+    | ok b =>
+      simp only [hf, Except.map, Except.ok.injEq] at h
+      exact Or.inr ⟨ps, b, rfl, hf, h.symm⟩
+
+/-- the metadata `write_arrays` stores: the caller's, with both props-metadata dicts run through
+`add_or_update_props_metadata` and (when node properties were given) the axis ranges recomputed
+from the dict that `write_props_arrays` left behind -/
+theorem writeArrays_spec [Min κ] [Max κ] {md : Meta κ} {n : Nat} {np ep : Option (List (String × PropData κ))}
+    {nu eu : Option (List (String × List String))} {w : Written κ}
+    (h : writeArrays md n np ep nu eu = .ok w) :
+    ∃ nodeRes edgeRes : Option (PropsResult κ),
+      writeOpt (addEmptyAxisProps md n np) nu = .ok nodeRes ∧ writeOpt ep eu = .ok edgeRes ∧
+      finishMeta (addOrUpdatePropsMetadata (addOrUpdatePropsMetadata md (pmsOf nodeRes) true)
+        (pmsOf edgeRes) false) nodeRes = .ok w.md ∧
+      w.nodes = nodeRes.map (·.2.1) ∧ w.edges = edgeRes.map (·.2.1) := by
+  unfold writeArrays at h
+  obtain ⟨nodeRes, h1, h⟩ := bind_eq_ok h
+  obtain ⟨edgeRes, h2, h⟩ := bind_eq_ok h
+  obtain ⟨md3, h3, h⟩ := bind_eq_ok h
+  simp only [Except.ok.injEq] at h
+  subst h
+  exact ⟨nodeRes, edgeRes, h1, h2, h3, rfl, rfl⟩
+
+end
+
+section
+variable {κ : Type} [LT κ] [DecidableLT κ]
+
+/-! ### `create_or_update_metadata`, `update_metadata_axes`, `axes_from_lists` -/
+
+def callerNodeProps (md : Option (Meta κ)) : List (String × PropMeta) := (md.map (·.nodeProps)).getD []
+def callerEdgeProps (md : Option (Meta κ)) : List (String × PropMeta) := (md.map (·.edgeProps)).getD []
+def callerRest (md : Option (Meta κ)) : String := (md.map (·.rest)).getD ""
+def callerHints (md : Option (Meta κ)) : List String := (md.map (·.hintNames)).getD []
+
+theorem createOrUpdate_spec {version : String} {md : Option (Meta κ)} {d : Bool}
+    {axes : Option (List (Axis κ))} {m : Meta κ} (h : createOrUpdateMetadata version md d axes = .ok m) :
+    m.geffVersion = version ∧ m.directed = d ∧ m.nodeProps = callerNodeProps md ∧
+    m.edgeProps = callerEdgeProps md ∧ m.rest = callerRest md ∧ m.hintNames = callerHints md ∧
+    m.axes = axes.or (md.bind (·.axes)) := by
+  unfold createOrUpdateMetadata at h
+  cases md with
+  | some m0 =>
+    simp only at h
+    cases axes with
+    | some a =>
+      simp only at h
+      rw [assignAxes_spec h]
+      exact ⟨rfl, rfl, rfl, rfl, rfl, rfl, rfl⟩
+    | none =>
+      simp only [Except.ok.injEq] at h
+      subst h
+      exact ⟨rfl, rfl, rfl, rfl, rfl, rfl, rfl⟩
+  | none =>
+    simp only at h
+    rw [assignAxes_spec h]
+    cases axes <;> exact ⟨rfl, rfl, rfl, rfl, rfl, rfl, rfl⟩
+
+theorem updateMetadataAxes_spec {m m' : Meta κ} {ls : AxisLists} (h : updateMetadataAxes m ls = .ok m') :
+    ∃ axes : List (Axis κ), axesFromLists ls none none = .ok axes ∧ m' = { m with axes := some axes } := by
+  unfold updateMetadataAxes at h
+  obtain ⟨axes, h1, h2⟩ := bind_eq_ok h
+  exact ⟨axes, h1, assignAxes_spec h2⟩
+
+/-- the caller's entry `i` of every list, as `axes_from_lists` reads it -/
+def FromLists (ls : AxisLists) (roiMin roiMax : Option (List (Option κ))) (i : Nat) (n : String) (a : Axis κ) : Prop :=
+  a.name = n ∧ pick ls.types i = .ok a.type ∧ pick ls.units i = .ok a.unit ∧ pick ls.scales i = .ok a.scale ∧
+  pick ls.scaledUnits i = .ok a.scaledUnit ∧ pick ls.offset i = .ok a.offset ∧
+  pick roiMin i = .ok a.min ∧ pick roiMax i = .ok a.max
+
+theorem mkAxis_spec {ls : AxisLists} {roiMin roiMax : Option (List (Option κ))} {i : Nat} {n : String}
+    {a : Axis κ} (h : mkAxis ls roiMin roiMax i n = .ok a) : FromLists ls roiMin roiMax i n a := by
+  unfold mkAxis at h
+  obtain ⟨ty, h1, h⟩ := bind_eq_ok h
+  obtain ⟨un, h2, h⟩ := bind_eq_ok h
+  obtain ⟨sc, h3, h⟩ := bind_eq_ok h
+  obtain ⟨su, h4, h⟩ := bind_eq_ok h
+  obtain ⟨off, h5, h⟩ := bind_eq_ok h
+  obtain ⟨lo, h6, h⟩ := bind_eq_ok h
+  obtain ⟨hi, h7, h⟩ := bind_eq_ok h
+  split at h
+  · simp only [Except.ok.injEq] at h
+    subst h
+    exact ⟨rfl, h1, h2, h3, h4, h5, h6, h7⟩
+  · cases h
+
+theorem axesLoop_spec {ls : AxisLists} {roiMin roiMax : Option (List (Option κ))} (i0 : Nat) (l : List String)
+    (axes : List (Axis κ)) (h : axesLoop ls roiMin roiMax i0 l = .ok axes) :
+    axes.length = l.length ∧ ∀ j n a, l[j]? = some n → axes[j]? = some a →
+      FromLists ls roiMin roiMax (i0 + j) n a := by
+  induction l generalizing i0 axes with
+  | nil =>
+    simp only [axesLoop, Except.ok.injEq] at h
+    subst h; simp
+  | cons n t ih =>
+    simp only [axesLoop] at h
+    obtain ⟨a, h1, h⟩ := bind_eq_ok h
+    obtain ⟨rest, h2, h⟩ := bind_eq_ok h
+    simp only [Except.ok.injEq] at h
+    subst h
+    obtain ⟨il, ij⟩ := ih (i0 + 1) rest h2
+    refine ⟨by simp [il], ?_⟩
+    intro j n' a' hn ha
+    cases j with
+    | zero =>
+      simp only [List.getElem?_cons_zero, Option.some.injEq] at hn ha
+      subst hn; subst ha
+      simpa using mkAxis_spec h1
+    | succ j =>
+      simp only [List.getElem?_cons_succ] at hn ha
+      have := ij j n' a' hn ha
+      rwa [Nat.add_assoc, Nat.add_comm 1 j] at this
+
+/-- **`axes_from_lists`** — one axis per name, in order, each field the caller's list entry (or
+`None` when the list is `None`); every given list has as many entries as there are names
+(the repaired `axis_offset` check included) -/
+theorem axesFromLists_spec {ls : AxisLists} {roiMin roiMax : Option (List (Option κ))} {names : List String}
+    {axes : List (Axis κ)} (hn : ls.names = some names) (h : axesFromLists ls roiMin roiMax = .ok axes) :
+    axes.length = names.length ∧
+    (∀ j n a, names[j]? = some n → axes[j]? = some a → FromLists ls roiMin roiMax j n a) ∧
+    lenOk ls.units names.length = true ∧ lenOk ls.types names.length = true ∧
+    lenOk ls.scales names.length = true ∧ lenOk ls.scaledUnits names.length = true ∧
+    lenOk ls.offset names.length = true := by
+  unfold axesFromLists at h
+  simp only [hn] at h
+  by_cases h1 : lenOk ls.units names.length = true
+  · by_cases h2 : lenOk ls.types names.length = true
+    · by_cases h3 : lenOk ls.scales names.length = true
+      · by_cases h4 : lenOk ls.scaledUnits names.length = true
+        · by_cases h5 : lenOk ls.offset names.length = true
+          · simp only [h1, h2, h3, h4, h5, Bool.not_true, Bool.false_eq_true, if_false] at h
+            obtain ⟨a, b⟩ := axesLoop_spec 0 names axes h
+            exact ⟨a, by simpa using b, h1, h2, h3, h4, h5⟩
+          · simp [h1, h2, h3, h4, h5] at h
+        · simp [h1, h2, h3, h4] at h
+      · simp [h1, h2, h3] at h
+    · simp [h1, h2] at h
+  · simp [h1] at h
+
+end
+
+section
+variable {κ : Type}
+
+/-! ### auxiliary facts for the property theorems -/
+
+theorem storedOf_name (name : String) (p : PropData κ) : (storedOf name p).name = name := by
+  unfold storedOf; cases p.values <;> rfl
+
+theorem lookup_mem' {β} {k : String} {d : List (String × β)} {v : β} (h : lookup k d = some v) : (k, v) ∈ d := by
+  induction d with
+  | nil => simp [lookup] at h
+  | cons p t ih =>
+    obtain ⟨k', v'⟩ := p
+    simp only [lookup] at h
+    by_cases hk : k' = k
+    · simp only [hk, if_true, Option.some.injEq] at h
+      subst h; subst hk; simp
+    · simp only [hk, if_false] at h
+      exact List.mem_cons_of_mem _ (ih h)
+
+theorem addOrUpdateDict_nil (E : List (String × PropMeta)) : addOrUpdateDict E [] = E := rfl
+
+
+theorem finishMeta_props [LT κ] [DecidableLT κ] [Min κ] [Max κ] {md md' : Meta κ} {r : Option (PropsResult κ)} (h : finishMeta md r = .ok md') :
+    md'.nodeProps = md.nodeProps ∧ md'.edgeProps = md.edgeProps ∧ md'.rest = md.rest ∧
+    md'.hintNames = md.hintNames ∧ md'.directed = md.directed ∧ md'.geffVersion = md.geffVersion ∧
+    md'.axes.map (·.map strip) = md.axes.map (·.map strip) := by
+  unfold finishMeta at h
+  cases r with
+  | none => simp only [Except.ok.injEq] at h; subst h; simp
+  | some r =>
+    simp only at h
+    rcases computeMinMax_spec h with ⟨_, rfl⟩ | ⟨axes, axes', ha, hm, rfl⟩
+    · simp
+    · refine ⟨rfl, rfl, rfl, rfl, rfl, rfl, ?_⟩
+      simp only [ha, Option.map_some, Option.some.injEq]
+      exact mapM_map_congr strip strip hm (fun a b hab => (axisMinMax_spec hab).1)
+
+
+theorem validated_ok [LT κ] [DecidableLT κ] [Min κ] [Max κ] {md : Meta κ} {n e : Nat} {np ep : Option (List (String × PropData κ))}
+    {nu eu : Option (List (String × List String))} {w : Written κ}
+    (h : writeArraysValidated md n e np ep nu eu = .ok w) : writeArrays md n np ep nu eu = .ok w := by
+  unfold writeArraysValidated at h
+  obtain ⟨w', hw, h2⟩ := bind_eq_ok h
+  split at h2
+  · simp only [pure_eq, Except.ok.injEq] at h2; subst h2; exact hw
+  · cases h2
 
 end
 
